@@ -31,6 +31,11 @@ CHECKS = {
             "Inputs: every templ text in the repository (75 .templ files, both halves of the 50 formatter archives, docs fenced blocks), every byte prefix of them, every single-token deletion, duplication and insertion of 24 structural tokens (braces, tags, raw elements, comments, control-flow headers, quotes, multi-byte, CRLF) at every token boundary (files up to a size cap per tier), and every token string up to 3/4 tokens inside a template body. Totality: ParseString returns (30 s hang guard, 5 attempts), never panics, and every parse error position is inside the input with line/column consistent with its index. Faithfulness (inputs that also generate and gofmt): a reflection walk over the whole TemplateFile finds every Expression and every NameRange; ranges in bounds and ordered, line/column equal to an independent newline-table computation, source text at the range start has the recorded expression text as prefix, name ranges cover exactly the name.",
             "No coverage-guided random bytes (sampling). Positions are byte based as parse.Input defines them.",
             "4.6", "enum+tgen"),
+    "C07": ("exploration",
+            "program enumeration (corpus + slot x shape x line-context product) with per-byte source-map lookup against the two texts",
+            "Programs: all 282 templ texts of the repository plus every combination of 25 expression slots (package clause, signature incl. receiver, if/else-if, for, switch/case, string, attribute, boolean/spread/conditional/class/style/href/on* attributes, call arguments, block calls, templ element expression, raw Go, script {{ }}, css value, script template name/parameters, top-level Go after and header before the package clause) x 6 expression shapes (ASCII, multi-line call, multi-byte inside, raw string spanning lines, padded, braces) x 3 line contexts (alone, after ASCII text, after multi-byte text); thorough adds ordered slot pairs in one file. For every expression found by a reflection walk of the parse tree and every rune-start byte and end-of-line position: lookup succeeds, the generated (pre-gofmt) text holds the same byte, target line/column agree with the target index, consecutive source positions map to consecutive target positions, the reverse lookup returns the source triple. Symbol ranges of templates, css and script blocks enclose the go/parser-located declarations and reverse-map.",
+            "Target text is the generator output before gofmt (what the LSP proxy hands to gopls). Mid-rune offsets and blank expressions are skipped.",
+            "4.7", "tgen"),
     "C11": ("fault_enumeration",
             "exhaustive configuration x fault-point enumeration on the real handler",
             "Every component that writes up to 3/4 chunks of sizes {1,100,5000} and then fails or succeeds (directly or nested under templ.Join) x status {unset,200,201,404} x 3 content types x 5 error-handler shapes (unset, status+body, body only, nothing, own content type) x buffered/streamed, each followed by three further renders over the shared buffer pool. A recording ResponseWriter captures committed status, headers at commit time, number of WriteHeader calls and body. Buffered oracle: success = exact status/content type/full document; failure = no document byte, default 500 message or exactly what the error handler alone writes, handler receives the cause.",
